@@ -330,3 +330,21 @@ def edits_atomic(ctx):
     structure can be followed by an error exit (C10.atomic restricted to the access-structure code)."""
     from . import c10
     c10.atomic(ctx, only=r'^abe_policy::')
+
+
+@rule('C03', 'edit-failures', configs=('default',))
+def edit_failures(ctx):
+    """An edit that cannot be carried out as asked is refused, not approximated: adding after an unknown attribute, a duplicate
+    name, an unknown dimension are errors decided by a lookup in the structure itself (C09.contract-table restricted to the
+    access-structure code, C09.failure-decided-by-own-lookup) — an attribute silently ranked at the bottom of a hierarchy is
+    opened by every key of that dimension."""
+    from . import c09
+    c09.contract_table(ctx, only=r'^abe_policy::')
+    c09.failure_decided_by_own_lookup(ctx)
+
+
+@rule('C03', 'combine-visits-every-dimension')
+def combine_visits_every_dimension(ctx):
+    """Adding a dimension (still empty) changes nothing for the rights of the others (C01.combine-visits-every-dimension)."""
+    from . import c01
+    c01.combine_visits_every_dimension(ctx)
